@@ -12,6 +12,7 @@ pub(crate) mod extracted;    // generated: tools/extract.py (verbatim arm bodies
 mod steps;
 mod leaf;
 mod tag;
+mod fragname;
 mod attrs;
 mod dirs;
 mod misc;
